@@ -9,14 +9,18 @@
     (Proofs/Sim6.v: warn-mode simulation + strict/warn agreement + "strict mode never warns".)
     The same is proved for COMMANDS and RESPONSES (Proofs/Sim7-10.v), for all tables passing [msg_tables_ok].
     and for STREAMS of whole messages below the model's loop bound (Proofs/Sim13.v): [C04_every_root].
-    NOT YET PROVED: reserved command codes (an unknown command code makes the input structurally inconsistent for
-    the specification, so the theorems do not speak about it);
-    decided by the oracle (implementation vs extracted [spec_value_error] at the pinned tables on every
+    RESERVED COMMAND CODES (an unknown command code makes the input structurally inconsistent for the specification, so
+    the theorems above do not speak about it) have their own theorem, for all tables and all inputs: a command with a
+    valid tag, a size field announcing at least the header and a code that is not a TPM_CC raises the value error
+    naming the commandCode field (path, declared type, the integer), after exactly the events of the root, the tag and
+    the size - none for the code -, leaving exactly the bytes after the code ([Proofs/ReservedCC.v]: the run of the
+    command decoder computed symbolically through the constraint store, then the byte pump).
+    All of this is also decided by the oracle (implementation vs extracted [spec_value_error] at the pinned tables on every
     constrained leaf of generated messages) and the model correspondence.
     Statement file: theorem statements, [exact], Print Assumptions only. *)
 From Coq Require Import ZArith List String Bool.
 From TV Require Import Layout.Types gen.Tables gen.Pinned Base.Bytes Model.Monad Model.Ints Model.Decoder Model.Message Model.Pump
-  Model.Show Spec.Value Spec.Message Proofs.OpLemmas Proofs.Agree Proofs.Sim6 Proofs.Sim10 Proofs.Sim11 Proofs.Sim13 Properties.C20.
+  Model.Show Spec.Value Spec.Message Proofs.OpLemmas Proofs.Agree Proofs.Sim6 Proofs.Sim10 Proofs.Sim11 Proofs.Sim13 Proofs.ReservedCC Properties.C20.
 Import ListNotations.
 Open Scope Z_scope.
 
@@ -104,3 +108,28 @@ Example C04_example_ticket :
   exists t evs e, find_type Pinned.T "S" "TPMT_TK_CREATION" = Some t /\
     spec_value_error Pinned.T (RType t) [128; 33; 0; 0; 0; 0; 0; 0] = Some (evs, ORaised e [0; 0]) /\ List.length evs = 2%nat.
 Proof. eexists _, _, _. split; [vm_compute; reflexivity|]. split; vm_compute; reflexivity. Qed.
+
+(** reserved command codes: every table, every input of this form *)
+Theorem C04_reserved_command_code :
+  forall T tagb szb ccb rest,
+    List.length tagb = Z.to_nat (pwidth (p_cmd_tag T)) -> List.length szb = Z.to_nat (pwidth (p_size32 T)) ->
+    List.length ccb = Z.to_nat (pwidth (p_cc T)) ->
+    valid (p_cmd_tag T) (from_bytes (psigned (p_cmd_tag T)) tagb) = true ->
+    valid (p_size32 T) (from_bytes (psigned (p_size32 T)) szb) = true ->
+    valid (p_cc T) (from_bytes (psigned (p_cc T)) ccb) = false ->
+    0 <= from_bytes (psigned (p_size32 T)) szb ->
+    pwidth (p_cmd_tag T) + pwidth (p_size32 T) + pwidth (p_cc T) <= from_bytes (psigned (p_size32 T)) szb ->
+    exists evs,
+      decode T true RCommand (tagb ++ szb ++ ccb ++ rest) =
+        (evs, ORaised (EValue (pchild root_path "commandCode") (pname (p_cc T)) (from_bytes (psigned (p_cc T)) ccb) VSType) rest) /\
+      map fst evs = [sev root_path (TyN "Command");
+                     Ev (mkEvent (pchild root_path "tag") (TyN (pname (p_cmd_tag T))) (Some (from_bytes (psigned (p_cmd_tag T)) tagb)));
+                     Ev (mkEvent (pchild root_path "commandSize") (TyN (pname (p_size32 T))) (Some (from_bytes (psigned (p_size32 T)) szb)))].
+Proof. exact reserved_command_code_is_rejected. Qed.
+Print Assumptions C04_reserved_command_code.
+
+(** non-vacuity: command code 0x00000FFF *)
+Example C04_example_reserved_cc :
+  snd (decode Tables.T true RCommand [128;1; 0;0;0;12; 0;0;15;255; 0;0]) =
+  ORaised (EValue (pchild root_path "commandCode") "TPM_CC" 4095 VSType) [0;0].
+Proof. vm_compute. reflexivity. Qed.
